@@ -180,6 +180,7 @@ pub fn holder_alphabet() -> Vec<HoldOp> {
         HoldOp { name: "none_kb2", sel: obj(json!({})), kb: 2, fails: false },
         HoldOp { name: "p1_nokb", sel: obj(json!({"a": true})), kb: 0, fails: false },
         HoldOp { name: "fail_unknown_object", sel: obj(json!({"zz": {"q": true}})), kb: 1, fails: true },
+        HoldOp { name: "fail_kb_alg_not_for_this_key", sel: obj(json!({"a": true})), kb: 4, fails: true },
     ]
 }
 const A: [&str; 3] = ["", "https://v1.example", "https://v2.example"];
@@ -189,6 +190,8 @@ fn kb_of(op: &HoldOp) -> KbArgs {
     match op.kb {
         0 => KbArgs::none(),
         3 => KbArgs { nonce: Some(N[1].into()), aud: None, key: None, alg: None },
+        // EdDSA asked for with an EC key: this call must fail and must not affect later ones
+        4 => KbArgs { nonce: Some(N[1].into()), aud: Some(A[1].into()), key: Hk::Es.enc(0), alg: Some("EdDSA".into()) },
         k => KbArgs { nonce: Some(N[k as usize].into()), aud: Some(A[k as usize].into()), key: Hk::Es.enc(0), alg: Some("ES256".into()) },
     }
 }
@@ -262,7 +265,7 @@ pub fn run_holder_seq_on(cred: &Cred, alpha: &[HoldOp], seq: &[usize], which: &s
         if pp.jwt != cred.parts.jwt {
             l.violation(mk("wrong_jwt", "c11_jwt", String::new()));
         }
-        if pp.kb.is_some() != (op.kb != 0) {
+        if pp.kb.is_some() != (op.kb != 0 && op.kb != 3) {
             l.violation(mk("wrong_kb", "c11_kb_presence", format!("kb present={} requested={}", pp.kb.is_some(), op.kb != 0)));
         }
         let (aud, nonce) = if op.kb != 0 { (Some(A[op.kb as usize]), Some(N[op.kb as usize])) } else { (None, None) };
@@ -350,7 +353,7 @@ pub fn run(rep: &Report) {
         };
         let hs = sequences(ha.len(), full_len);
         par_for(rep, hs.len(), |i, l| run_holder_seq(&cred, &ha, &hs[i], l));
-        rep.scope_done(json!({"scope": format!("holder built from a {} SD-JWT: every sequence of length <= {full_len} over the 10-operation alphabet (7 succeeding, 3 failing)", fmt.name()), "sequences": hs.len()}));
+        rep.scope_done(json!({"scope": format!("holder built from a {} SD-JWT: every sequence of length <= {full_len} over the 11-operation alphabet (7 succeeding, 4 failing)", fmt.name()), "sequences": hs.len()}));
         let hcore_ids: Vec<usize> = if quick { vec![2, 1, 3] } else { vec![2, 1, 3, 4] };
         let hcore: Vec<HoldOp> = hcore_ids.iter().map(|i| ha[*i].clone()).collect();
         let hl = sequences(hcore.len(), 8);
